@@ -126,6 +126,16 @@ class Driver:
         os.makedirs(os.path.dirname(self.errpath), exist_ok=True)
         self.seq = 0
         self.hang_retries = 0
+        self.confirmed_hangs = 0
+
+    def _horizon(self, c):
+        """time limit of a case.  Once two cases of this driver have hung even alone and with six times the limit, the library
+        under test does hang (the verdict is there already): the remaining cases get a short limit, so that a check against
+        such a library ends in minutes, not hours"""
+        h = c.horizon or self.horizon
+        if self.confirmed_hangs >= 2 and not c.retried:
+            h = min(h, 4)
+        return h
 
     # -- process management
     def start(self):
@@ -241,7 +251,7 @@ class Driver:
                 c = cases[ci]
                 self.seq += 1
                 c.id = '%d' % self.seq
-                txt = 'begin %s%s\n%s\nend\n' % (c.id, (' fork %d' % int(c.horizon or self.horizon)) if c.fork else '', c.script())
+                txt = 'begin %s%s\n%s\nend\n' % (c.id, (' fork %d' % int(self._horizon(c))) if c.fork else '', c.script())
                 if batch and size + len(txt) > self.MAXBATCH:
                     self.seq -= 1
                     break
@@ -253,7 +263,7 @@ class Driver:
             for ci, _ in batch:
                 c = cases[ci]
                 res = Result()
-                limit = (c.horizon or self.horizon) + (2.0 if c.fork else 0.0)
+                limit = self._horizon(c) + (2.0 if c.fork else 0.0)
                 deadline = time.time() + limit
                 state = 0
                 while True:
@@ -324,12 +334,14 @@ class Driver:
         # a case that did not answer in time is run once more, alone, with six times the limit, before it is called a hang (a
         # loaded machine must not turn into a verdict); at most a few times per driver, a library that really hangs hangs every time
         for i, r in enumerate(results):
-            if r is not None and r.status == 'hang' and not cases[i].retried and self.hang_retries < 4:
+            if r is not None and r.status == 'hang' and not cases[i].retried and self.hang_retries < 4 and self.confirmed_hangs < 2:
                 self.hang_retries += 1
                 c = cases[i]
                 c2 = Case(list(c.lines), fork=c.fork, horizon=int((c.horizon or self.horizon) * 6))
                 c2.retried = True
                 r2 = self.run([c2])[0]
+                if r2.status == 'hang':
+                    self.confirmed_hangs += 1
                 c.id = c2.id
                 results[i] = r2
         return results
